@@ -23,3 +23,17 @@ func VerifWriterInvokeBuf(e *actor.Engine, batch []VerifDeliver, buffSize int) (
 	w.Invoke(msgs)
 	return st.sent, nil
 }
+
+type verifWriterProc struct{ *streamWriter }
+
+// Start opens the writer's inbox without dialling.
+func (v verifWriterProc) Start() { v.inbox.Start(v.streamWriter) }
+
+// VerifSpawnIdleWriter registers a stream writer (fake stream, no dialling) on
+// the engine, as the router does for an address it sends to, and returns its PID.
+func VerifSpawnIdleWriter(e *actor.Engine, address string) *actor.PID {
+	w := newStreamWriter(e, actor.NewPID(e.Address(), "verif-router"), address, nil, 0).(*streamWriter)
+	w.stream = &verifStream{}
+	w.rawconn = verifConn{}
+	return e.SpawnProc(verifWriterProc{w})
+}
